@@ -55,7 +55,7 @@ pub fn generate(rng: &mut Rng, tier: Tier, stats: &mut GenStats) -> Scenario {
                 let src = walkers[0].source.clone();
                 if let Source::Glob { expr, rooted } = &src {
                     // never leave the world: as many `..` as the other base is deep, at most
-                    let ups = expr.split('/').take_while(|c| *c == "..").count();
+                    let ups = expr.split('/').take_while(|c| dot_kind(c) == Some("..")).count();
                     if ups <= depth_of(&other)
                         && model.is_dir_node(&other)
                         && (walkers[1].link == Link::ReadTarget || !prefix_touches_link(&model, &other, expr, *rooted))
@@ -68,7 +68,7 @@ pub fn generate(rng: &mut Rng, tier: Tier, stats: &mut GenStats) -> Scenario {
             2 => {
                 let b = walkers[0].base.clone();
                 if let Source::Glob { expr, rooted } = &walkers[1].source.clone() {
-                    if (walkers[1].link == Link::ReadTarget || !prefix_touches_link(&model, &b, expr, *rooted)) && !expr.starts_with("..") {
+                    if (walkers[1].link == Link::ReadTarget || !prefix_touches_link(&model, &b, expr, *rooted)) && dot_kind(expr.split('/').next().unwrap_or("")).is_none() {
                         walkers[1].base = b;
                     }
                 }
